@@ -55,7 +55,7 @@ func c15Legs(tier, o string) []pairLeg {
 	} else {
 		add("U3", thin(U(3), 70))
 		add("A3x123", Arr(3, "123"))
-		add("multikey", thin(c15MultiKey(), 30))
+		add("multikey", c15MultiKey())
 	}
 	return legs
 }
@@ -67,6 +67,8 @@ func c15MultiKey() *TextSet {
 			`{"a":1,"b":2,"c":3}`, `{"a":1,"b":2,"c":4}`, `{"a":2,"b":3,"c":4,"d":5}`, `{"b":2,"c":3,"d":1}`, `{"a":{"x":1,"y":2,"z":3},"b":[1,2,3]}`,
 			`{"a":{"x":2,"y":3,"z":4},"b":[1,2,3,4,5]}`, `{"a":{"x":1,"y":{"p":1,"q":2,"r":3}},"c":1}`, `{"a":{"y":{"p":2,"q":3,"r":4}},"c":2,"d":[1]}`,
 			`[{"a":1,"b":2,"c":3},{"d":4,"e":5,"f":6}]`, `[{"a":2,"b":3,"c":4},{"d":4,"e":6,"f":7},1]`, `{}`, `{"e":1,"f":2,"g":3,"h":4}`, `[1]`, `[1,2,3]`, `[3,2,1,4]`,
+			// keys on which a sloppy comparator ties or is not transitive: case variants, number-like, empty, non-ASCII
+			`{"id":1,"Id":2,"ID":3}`, `{"id":10,"Id":20,"ID":30,"iD":40}`, `{"1":1,"01":2,"a":3}`, `{"2":1,"10":2,"1a":3,"":4}`, `{"é":1,"e":2,"E":3,"É":4}`,
 		}
 		var vs []V
 		for _, t := range texts {
@@ -77,7 +79,8 @@ func c15MultiKey() *TextSet {
 }
 
 var c15MergePatches = []string{`{"a":1,"b":2,"c":3}`, `{"a":null,"b":{"x":1,"y":null,"z":{}},"c":[1]}`, `{"a":{"b":{"c":1,"d":2,"e":null}},"f":1}`, `{}`, `1`, `{"a":{}}`,
-	`{"a":1,"b":null,"c":2,"d":null,"e":3}`, `[1,2]`, `{"x":{"y":{"z":null}},"a":null}`}
+	`{"a":1,"b":null,"c":2,"d":null,"e":3}`, `[1,2]`, `{"x":{"y":{"z":null}},"a":null}`,
+	`{"2":"b","10":"c","1a":"d"}`, `{"1":"x","01":"y","a":"z"}`, `{"id":1,"Id":2,"ID":3}`, `{"":1," ":2,"é":3,"E":4,"e":5}`}
 
 var c15JSONPatches = []string{`[]`, `[{"op":"add","path":"/a","value":1}]`, `[{"op":"test","path":"/a","value":1},{"op":"remove","path":"/a","value":1},{"op":"add","path":"/a","value":2}]`,
 	`[{"op":"add","path":"/0","value":1},{"op":"add","path":"/0","value":2},{"op":"add","path":"/0","value":3}]`,
@@ -91,6 +94,7 @@ func init() {
 	engine.Register(&engine.Check{
 		ID:        "C15",
 		Companion: "C15ORD",
+		Unstable:  true,
 		Rule: "call-history exploration: for every (a,b,o) of the universes (plus diffs read from merge patches and from JSON Patch documents against a target set) and every history of read-only API calls of length <= 2 (thorough: 3) over " +
 			"{Render, Render(COLOR), RenderPatch, RenderMerge, Json, Yaml, Equals, Diff-again}: after every call the memory snapshot of (a,b,d) - public DiffElement fields with the Go type and Json() of every node - must equal the initial snapshot, " +
 			"every output must equal the output of the same call on fresh values, and the final a.Patch(d) must give the history-free result; determinism leg: 40 in-process repetitions of every output on fresh values must be identical; map-order leg (build with controlled map iteration, DESIGN.md section 5): every output under every single (thorough: double) deviation of a map range from sorted order must equal the sorted-order output; non-trivial = history of length >= 2 on a non-empty diff, or an execution with a deviating map order",
@@ -307,6 +311,7 @@ func runC15(c *engine.Case) engine.Result {
 							name = c15OpNames[c15Ops[i]]
 						}
 						fail = fmt.Sprintf("output of %s is not deterministic: repetition 0 gave %q, repetition %d gave %q", name, first[i], rep, outs[i])
+						res.Sig = "non-deterministic output of " + name
 						return
 					}
 				}
@@ -342,10 +347,12 @@ func runC15(c *engine.Case) engine.Result {
 			res.Traces++
 			if out != fresh[c.X[i]] {
 				fail = fmt.Sprintf("after the calls %s, %s returns %q; on fresh values it returns %q", historyNames(c.X[:i]), c15OpNames[c.X[i]], out, fresh[c.X[i]])
+				res.Sig = fmt.Sprintf("call %d (%s) output differs from the fresh-value output", i+1, c15OpNames[c.X[i]])
 				return
 			}
 			if s := w.snapshot(); s != s0 {
 				fail = fmt.Sprintf("%s (call %d of history %s) changed its arguments:\n--- before\n%s--- after\n%s", c15OpNames[c.X[i]], i+1, historyNames(c.X), s0, s)
+				res.Sig = fmt.Sprintf("call %d (%s) changed its arguments", i+1, c15OpNames[c.X[i]])
 				return
 			}
 		}
@@ -353,6 +360,7 @@ func runC15(c *engine.Case) engine.Result {
 		res.Transitions++
 		if got != wantPatch {
 			fail = fmt.Sprintf("after the calls %s, a.Patch(d) gives %q; without them %q", historyNames(c.X), got, wantPatch)
+			res.Sig = "a.Patch(d) after the history differs from the history-free result"
 		}
 	})
 	if p != "" {
